@@ -101,6 +101,23 @@ def decode_paths(analysis: Analysis, keys, with_child: bool = False):
     return d, analysis.run_root(it, "persistence:MySensorsJSONDecoder.dict_to_object", [d], dec, st)
 
 
+def digit_keys_rule(analysis: Analysis, res: RuleResult, rule: str, wd) -> None:
+    """All-digit keys -> the same entries under int keys (node and child ids are ints in memory); by evaluating
+    the object hook, wherever its body lives."""
+    from ..engine import describe_path
+    from ..values import DictV
+
+    d, outs = decode_paths(analysis, ["0", "7", "255"])
+    bad = []
+    for out in outs:
+        kind, s, v = out
+        if kind != "val":
+            bad.append((f"raises {v.cls.__name__}: {v.what}", out))
+        elif not (isinstance(v, DictV) and v.closed and set(v.entries) == {0, 7, 255} and all(v.entries[i].key() == ("root", f"v_{i}") for i in (0, 7, 255))):
+            bad.append((f"returns {sorted(getattr(v, 'entries', {}), key=str) if isinstance(v, DictV) else v.key()!r}: not every entry under its integer key with its own value", out))
+    res.add(rule, "persistence:MySensorsJSONDecoder / all-digit keys become int keys, every entry and value kept (ids 0, 7, 255)", not bad and bool(outs), wd, "{int(k): v} for every item" if not bad else bad[0][0], describe_path(bad[0][1], 18) if bad else None)
+
+
 def decoder_rules(analysis: Analysis, res: RuleResult, enc_s, enc_c, wd) -> None:
     """R2/R3 by evaluation: the object hook is run on a dict with exactly the encoder's keys of each class, on
     all-digit keys and on other dicts; what it returns is compared with what the encoder wrote."""
@@ -174,16 +191,7 @@ def decoder_rules(analysis: Analysis, res: RuleResult, enc_s, enc_c, wd) -> None
                 if got is None or got.key() != ("root", "v_" + k):
                     bad.append((f"attribute {k} ends up as {got.key() if got is not None else None!r}, not the encoded value", out))
         res.add("C11-R2", f"persistence:MySensorsJSONDecoder / a dict with {label} becomes a ChildSensor with every key restored", not bad and bool(outs), wd, f"{len(outs)} path(s)" if not bad else bad[0][0], describe_path(bad[0][1], 18) if bad else None)
-    # all-digit keys -> the same entries under int keys
-    d, outs = decode_paths(analysis, ["0", "7", "255"])
-    bad = []
-    for out in outs:
-        kind, s, v = out
-        if kind != "val":
-            bad.append((f"raises {v.cls.__name__}: {v.what}", out))
-        elif not (isinstance(v, DictV) and v.closed and set(v.entries) == {0, 7, 255} and all(v.entries[i].key() == ("root", f"v_{i}") for i in (0, 7, 255))):
-            bad.append((f"returns {sorted(getattr(v, 'entries', {}), key=str) if isinstance(v, DictV) else v.key()!r}: not every entry under its integer key with its own value", out))
-    res.add("C11-R3", "persistence:MySensorsJSONDecoder / all-digit keys become int keys, every entry and value kept (ids 0, 7, 255)", not bad and bool(outs), wd, "{int(k): v} for every item" if not bad else bad[0][0], describe_path(bad[0][1], 18) if bad else None)
+    digit_keys_rule(analysis, res, "C11-R3", wd)
     # anything else is returned untouched
     for keys in (["foo"], ["1", "x"]):
         d, outs = decode_paths(analysis, keys)
